@@ -189,7 +189,7 @@ def write_evidence(pid, tier, seed, summaries, wall, nviol, errors, inconclusive
                     "discharged": s.discharged, "solver_queries": s.queries, "solver_s": round(s.solver_s, 2),
                     "wall_s": round(s.wall_s, 2), "cover_labels_reached": sorted(s.covers),
                     "unwinding_hits": s.unwind_hits, "solver_unknowns": s.unknowns,
-                    "obligations_rechecked_with_cvc5": s.xchecked, "cvc5_agrees": s.xagree, "cvc5_timeout_or_unknown": s.xunknown,
+                    "queries_rechecked_with_cvc5": s.xchecked, "cvc5_agrees": s.xagree, "cvc5_timeout_or_unknown": s.xunknown,
                     "paths_validated_natively": s.validated, "notes": sorted(s.notes)})
     cov = {
         "states": max(states, 0), "transitions": max(transitions, 0),
